@@ -10,6 +10,7 @@ package engine
 //@ spec bplc(b txt.Block) int = b.(*txt.block).precedingLineCount
 //@ spec bend(b txt.Block) int = txt.lineEnd(bl(b)[len(bl(b))-1])
 //@ spec btEach(bs []txt.Block, text string) bool = forall(j, 0, len(bs), typeis(bs[j], *txt.block) && len(bl(bs[j])) >= 1 && samearr(bl(bs[j])[0].Text, text))
+//@ spec btLink(bs []txt.Block) bool = forall(k, 0, len(bs), txt.bS(bs[k]) == stroff(bl(bs[k])[0].Text) && txt.bE(bs[k]) == bend(bs[k]))
 //@ spec btChainOff(bs []txt.Block) bool = forall(j, 0, len(bs)-1, stroff(bl(bs[j+1])[0].Text) == bend(bs[j]))
 //@ spec btChainCnt(bs []txt.Block) bool = forall(j, 0, len(bs)-1, bplc(bs[j+1]) == bplc(bs[j]) + len(bl(bs[j])))
 //@ spec btChain(bs []txt.Block) bool = btChainOff(bs) && btChainCnt(bs)
@@ -32,7 +33,10 @@ package engine
 //@ ensures result2 == len(text) || (len(result1) == 0 && txt.blankOnly(text))
 //@ loop 1 invariant implies(len(blocks) > 0, totalBytesConsumed == len(text) || exists(k, totalBytesConsumed, len(text), txt.nb(text, k)))
 //@ loop 1 invariant btEach(blocks, text)
-//@ loop 1 invariant btChainOff(blocks)
+// (the chain of offsets is carried through the loop in terms of the blocks' creation-time summaries bS/bE, which need no
+// heap reads; btLink ties the summaries to the blocks' actual lines, block by block; together they give btChainOff)
+//@ loop 1 invariant btLink(blocks)
+//@ loop 1 invariant forall(j, 0, len(blocks)-1, txt.bS(blocks[j+1]) == txt.bE(blocks[j]))
 //@ loop 1 invariant btChainCnt(blocks)
 //@ loop 1 invariant btEnds(blocks, text, totalBytesConsumed)
 //@ loop 1 invariant totalLines == linesOf(blocks)
